@@ -131,7 +131,7 @@ Proof.
   - (* get-config *) inv H. injection H as <-. top single_el.
     apply (realizes_el0 (b_ s_get_config) []); [reflexivity|]. simpl.
     seq_ [t]; [now apply real_ds|]. apply realizes_seq; [now apply real_ofilter|now apply real_wd].
-  - (* edit-config *) inv H. injection H as <-. top single_el.
+  - (* edit-config *) rewrite edit_config_node_eq in H. unfold edit_config_patched in H. inv H. injection H as <-. top single_el.
     apply (realizes_el0 (b_ s_edit_config) []); [reflexivity|]. simpl.
     seq_ [t]; [now apply real_ds|]. apply realizes_seq; [eapply real_enum; eassumption|].
     apply realizes_seq; [eapply real_enum; eassumption|]. apply realizes_seq; [eapply real_enum; eassumption|].
